@@ -105,6 +105,9 @@ def gen_geom(rng, tier, regime, min_n=1, ndim=None, emax=6, force3=False):
     if regime == "exact":
         cell = [Fraction(rng.choice([1, 1, 3, 5]), 2 ** rng.randint(0, 3)) for _ in range(ndim)]
         pmin = [Fraction(rng.randint(-40, 40), 2 ** rng.randint(0, 2)) for _ in range(ndim)]
+        if rng.random() < 0.25:                                          # whole numbers: integer-typed corners possible
+            cell = [Fraction(rng.choice([1, 1, 2, 3])) for _ in range(ndim)]
+            pmin = [Fraction(rng.randint(-40, 40)) for _ in range(ndim)]
         pmax = [a + k * c for a, k, c in zip(pmin, n, cell)]
         if all(x.denominator == 1 for x in pmin + pmax) and rng.random() < 0.6:
             p1, p2 = [int(x) for x in pmin], [int(x) for x in pmax]      # integer-typed corners
@@ -595,7 +598,7 @@ def run_bad(case, obs, fail):
             mesh_matches(g, f, Fraction(0), fail, "single-cell axis, corners from coordinates and cell")
     if mut == "swap_corners" and g is not None:
         mesh_matches(g, f, Fraction(0), fail, "swapped corner attributes")
-    obs["tags"] += ["mut:" + mut, "accepted" if g is not None else "rejected"]
+    obs["tags"] += ["mut:" + mut + (":accepted" if g is not None else ":rejected")]
     obs["nontrivial"] = True
 
 
